@@ -36,7 +36,7 @@ import (
 	"github.com/dadrus/heimdall/internal/rules/mechanisms/template"
 	"github.com/dadrus/heimdall/internal/x"
 	"github.com/dadrus/heimdall/internal/x/errorchain"
-	"github.com/dadrus/heimdall/internal/x/stringx"
+	"github.com/dadrus/heimdall/internal/x/hashx"
 )
 
 // by intention. Used only during application bootstrap
@@ -347,8 +347,8 @@ func (a *genericAuthenticator) getCacheTTL(sessionLifespan *SessionLifespan) tim
 
 func (a *genericAuthenticator) calculateCacheKey(reference string) string {
 	digest := sha256.New()
-	digest.Write(a.e.Hash())
-	digest.Write(stringx.ToBytes(reference))
+	hashx.WriteBytes(digest, a.e.Hash())
+	hashx.WriteString(digest, reference)
 
 	return hex.EncodeToString(digest.Sum(nil))
 }
